@@ -14,6 +14,8 @@ LEVEL = 'exploration'
 RULE = ("every tree shape with <=L levels/<=N leaves x label scheme; per "
         "scenario the full product iterations {1,2,3,7} x n_runners_up "
         "{0,1,2,10} x {no reduction, flatten, drop each non-leaf level}, "
+        "iteration counts at integer-type boundaries (255,256,257; 65535/6 "
+        "thorough) with unanimous and split votes, "
         "bootstrap factor 0.5 so votes split, plus tie scenarios (two "
         "identical leaves, constant leaf).  Every record of every output is "
         "checked.  distinct_nontrivial = distinct (shape, scheme, config) "
@@ -26,19 +28,20 @@ CASE_TIMEOUT = 900
 
 def bounds(tier):
     if tier == 'quick':
-        return {'max_levels': 3, 'max_leaves': 4, 'schemes': ['B'],
+        return {'max_levels': 3, 'max_leaves': 4, 'schemes': ['D', 'E'],
                 'iterations': [1, 2, 3, 7], 'n_runners_up': [0, 1, 2, 10],
                 'n_cells': 4}
-    return {'max_levels': 4, 'max_leaves': 6, 'schemes': ['A', 'B'],
+    return {'max_levels': 4, 'max_leaves': 6, 'schemes': ['B', 'D', 'E'],
             'iterations': [1, 2, 3, 7, 10], 'n_runners_up': [0, 1, 2, 3, 10],
             'n_cells': 5}
 
 
 def cases(tier, seed):
     b = bounds(tier)
-    for L, n, shape in domains.shapes_up_to(b['max_levels'],
-                                            b['max_leaves']):
-        for scheme in b['schemes']:
+    for si, (L, n, shape) in enumerate(domains.shapes_up_to(
+            b['max_levels'], b['max_leaves'])):
+        for scheme in (b['schemes'] if tier == 'thorough'
+                       else [b['schemes'][si % len(b['schemes'])]]):
             for extra in ({}, {'tie_leaves': True, 'const_leaf': True}):
                 if extra and n < 2:
                     continue
@@ -46,6 +49,9 @@ def cases(tier, seed):
                        'n_cells': b['n_cells'], 'seed': seed, 'd': 0,
                        'iterations': b['iterations'],
                        'n_runners_up': b['n_runners_up'],
+                       'boundary_iterations': (
+                           [255, 256, 257] if tier == 'quick'
+                           else [127, 128, 255, 256, 257, 65535, 65536]),
                        'spec_extra': extra}
 
 
@@ -64,6 +70,14 @@ def space(case):
                                                or nr not in (0, 2)):
                     continue
                 yield cfg, ('iterations', 'n_runners_up') + tuple(red)
+    # iteration counts at the boundaries of the integer types a vote
+    # counter may use, with unanimous (factor 1) and split votes
+    if not case.get('spec_extra'):
+        for it in case.get('boundary_iterations', []):
+            for factor in (1.0, 0.5):
+                yield (dict(scenario.DEFAULT_CFG, iterations=it, factor=factor,
+                            n_runners_up=2, marker_mode='full', seam='cli'),
+                       ('iterations', 'factor'))
 
 
 def evaluate(case, scratch):
